@@ -80,6 +80,7 @@ let dtype_of = function
   | _ -> failwith "dtype"
 let dreq_of = function
   | A "f" -> Some RFloat | A "i" -> Some RInt | A "b" -> Some RBool | A "s" -> Some RStr | A "-" -> None
+  | A "sub" | A "sub2" -> Some RSub
   | _ -> failwith "dreq"
 let rec operand_of = function
   | L [A "S"; v] -> OScalar (pyval_of v)
@@ -483,7 +484,8 @@ def py_of_key(k):
 
 
 def py_dreq(d):
-    return {None: None, '-': None, 'f': float, 'i': int, 'b': bool, 's': str}[d]
+    # 'sub' / 'sub2': sub-array dtypes (astype() adds a dimension; the model's RSub)
+    return {None: None, '-': None, 'f': float, 'i': int, 'b': bool, 's': str, 'sub': '2f8', 'sub2': (float, 2)}[d]
 
 
 # --------------------------------------------------------------------------- real side: canonical observation
@@ -590,8 +592,9 @@ def observe(obj, declared=None):
     reg = [x if isinstance(x, str) else None for x in reg] if isinstance(reg, list) else ['notalist']
     hidden = set('_' + n for n in index)
     adict = sorted(k for k in d if k not in CORE_DICT and k not in hidden and not (k.startswith('_') and isinstance(d[k], np.ndarray)))
+    # `keys`: the raw key set of __dict__ (real side only; the oracle compares it across FAILED operations: nothing may be left behind)
     return {'span': span, 'index': index, 'vars': vs, 'values': values, 'size': size, 'nbytes': nbytes, 'strict': bool(d.get('_strict')),
-            'reg': reg, 'adict': adict, 'names': list(d.get('names', [])), 'values_rows_ok': rows_ok}
+            'reg': reg, 'adict': adict, 'names': list(d.get('names', [])), 'values_rows_ok': rows_ok, 'keys': sorted(str(k) for k in d)}
 
 
 def closest_hint(obj, name):
@@ -610,7 +613,8 @@ def apply_op(obj, op):
     info = {}
     try:
         if t == 'addvar':
-            obj.add_variable(op[1], py_of_operand(op[2]), dtype=py_dreq(op[3]))
+            info['_operand'] = py_of_operand(op[2])
+            obj.add_variable(op[1], info['_operand'], dtype=py_dreq(op[3]))
         elif t == 'setattr':
             info['_operand'] = py_of_operand(op[2])
             setattr(obj, op[1], info['_operand'])
@@ -618,7 +622,9 @@ def apply_op(obj, op):
             info['_operand'] = py_of_operand(op[2])
             obj[py_of_key(op[1])] = info['_operand']
         elif t == 'replace':
-            obj.replace_values(**{k: py_of_operand(v) for k, v in op[1]})
+            kw = {k: py_of_operand(v) for k, v in op[1]}
+            info['_operand'] = list(kw.values())
+            obj.replace_values(**kw)
         elif t == 'addattr':
             obj.add_attribute(op[1], py_of_operand(op[2]))
         elif t == 'query':
@@ -708,8 +714,9 @@ def span_object(case):
     return sp
 
 
-def construct(case):
-    """Build the real object of a case -> (obj, outcome)."""
+def construct(case, operands=None):
+    """Build the real object of a case -> (obj, outcome). `operands` (a list) receives the keyword operands handed to the
+    constructor, for the sharing test."""
     import fsic
     from fsic.core.containers import VectorContainer
     kind = case['kind']
@@ -718,6 +725,8 @@ def construct(case):
             return VectorContainer(span_object(case), strict=case['strict']), 'ok'
         cls = make_class(kind, case['names'], case.get('aliases'), case.get('preferred'))
         kw = {k: py_of_operand(v) for k, v in case['ivs']}
+        if operands is not None:
+            operands.extend(kw.values())
         if kind == 'model':
             return cls(span_object(case), strict=case['strict'], dtype=py_dreq(case['dreq']),
                        default_value=py_of_operand(case['default']), **kw), 'ok'
@@ -821,11 +830,17 @@ def cross_step(obj, sib, op, span, apply=None):
 
 def impl_run(case):
     """Run a whole case on the real fsic: observation after construction and after every op."""
-    obj, out = construct(case)
+    kwops = []
+    obj, out = construct(case, kwops)
     if obj is None:
         return {'init': out, 'steps': []}
     declared = [] if case['kind'] == 'vc' else list(case['names'])
     res = {'init': 'ok', 'st0': observe(obj, declared), 'steps': []}
+    if any(scramble(x) for x in kwops):          # constructor keywords: the series must not refer to the caller's arrays
+        shared0 = diff_state(res['st0'], observe(obj, declared))
+        if shared0:
+            res['shared0'] = shared0
+            res['st0'] = observe(obj, declared)
     sib = None
     for op in case['ops']:
         if op[0] in CROSS_OPS:
@@ -843,9 +858,10 @@ def impl_run(case):
         if op[0] == 'setattr' and op[1] == 'values' and o == 'ok':
             values_ok = values_set_readback(obj, declared, py_of_operand(op[2]))
         shared = None
-        if hasattr(operand, 'dtype'):
+        operands = operand if isinstance(operand, list) and op[0] == 'replace' else [operand]
+        if any(hasattr(x, 'dtype') for x in operands):
             before = observe(obj, declared)
-            if scramble(operand):
+            if any([scramble(x) for x in operands if hasattr(x, 'dtype')]):
                 shared = diff_state(before, observe(obj, declared))
         step = {'out': o, 'st': observe(obj, declared), 'hint': hint}
         if shared:
